@@ -3184,9 +3184,22 @@ func (p *Posix) DeleteObject(ctx context.Context, input *s3.DeleteObjectInput) (
 					}, nil
 				}
 
+				// the newest remaining version becomes the latest again:
+				// version ids sort by creation time, except the "null"
+				// version whose name sorts after all of them; it is the
+				// newest only if it was stored after the newest id
 				srcObjVersion, err := ents[len(ents)-1].Info()
 				if err != nil {
 					return nil, fmt.Errorf("get file info: %w", err)
+				}
+				if srcObjVersion.Name() == nullVersionId && len(ents) > 1 {
+					newestId, err := ents[len(ents)-2].Info()
+					if err != nil {
+						return nil, fmt.Errorf("get file info: %w", err)
+					}
+					if !srcObjVersion.ModTime().After(newestId.ModTime()) {
+						srcObjVersion = newestId
+					}
 				}
 				srcVersionId := srcObjVersion.Name()
 				sf, err := os.Open(filepath.Join(versionPath, srcVersionId))
